@@ -103,14 +103,28 @@ def execute(case, cid):
             return Numerics.make_extrap_func(model, extrap_x_l=xl, extrap_log=log)
         return Numerics.make_extrap_func(model, extrap_x_l=xl, extrap_log=log, fail_mag=case['fm'])
 
+    wrapped = {}
+
     def call(order):
         p_l = [pts_l[j] for j in order]
         xl = [xs[j] for j in order] if case['xsrc'] == 'explicit' else None
         # container / number types of the arguments (the statement does not restrict them to lists of Python ints)
         xk = case.get('x_kind', 'list')
-        if xl is not None and xk != 'list':
+        if xl is not None and xk in ('pyint', 'int64'):
+            # the documented type of extrap_x_l is list[int]: integer-valued x as Python ints / as a numpy int64 array
+            xl = [int(v) for v in xl]
+            if xk == 'int64':
+                xl = np.array(xl, dtype=np.int64)
+        elif xl is not None and xk != 'list':
             xl = tuple(xl) if xk == 'tuple' else np.array(xl)
-        f = wrap(xl)
+        if 'call_no' in case:
+            # repeated calls of ONE wrapped function: the wrapper is made once per x list and kept
+            key = repr(xl)
+            if key not in wrapped:
+                wrapped[key] = wrap(xl)
+            f = wrapped[key]
+        else:
+            f = wrap(xl)
         pk = case.get('pts_kind', 'list')
         if case['scalar']:
             arg = np.int64(p_l[0]) if pk == 'npint' else p_l[0]
@@ -141,7 +155,14 @@ def execute(case, cid):
     rec = {'id': cid, 'op': 'no_extrap' if case['noex'] else 'extrap_log' if log else 'extrap_lin', 'site': 'Numerics.make_extrap_log_func' if (log and case.get('use_logfunc')) else 'Numerics.make_extrap_func',
            'in': inp}
     k = len(pts_l)
+    if 'call_no' in case:
+        inp['call_no'] = int(case['call_no'])
     try:
+        # the recorded call is call number call_no of the same wrapped function (the earlier ones with the same arguments)
+        for _ in range(int(case.get('call_no', 1)) - 1):
+            call(range(k))
+            calls.clear()
+            returned.clear()
         res = call(range(k))
     except Exception as e:                      # recorded, judged by the specification
         out = {'raised': type(e).__name__, 'msg': str(e)[:120]}
